@@ -2791,13 +2791,18 @@ func (c *compiler) VisitForRangeStmt(s *ast.ForRangeStmt) ast.VisitResult {
 }
 
 func (c *compiler) VisitBreakContinueStmt(s *ast.BreakContinueStmt) ast.VisitResult {
-	c.exitNestedScopes(c.curLoopScope)
-	c.commentNode(c.cbb, s, "")
 	if s.Tok.Type == token.VERLASSE {
+		c.exitNestedScopes(c.curLoopScope)
+		c.commentNode(c.cbb, s, "")
 		c.cbb.NewBr(c.curLeaveBlock)
 		c.cbb = c.cf.NewBlock("")
 		return ast.VisitRecurse
 	}
+	// the scope of the loop itself (iterated value, step size and their temporaries)
+	// lives on for the next iteration, only the scopes inside of it are left
+	for scp := c.scp; scp != c.curLoopScope; scp = c.exitScope(scp) {
+	}
+	c.commentNode(c.cbb, s, "")
 	c.cbb.NewBr(c.curContinueBlock)
 	c.cbb = c.cf.NewBlock("")
 	return ast.VisitRecurse
